@@ -805,6 +805,18 @@ func c02Gen(r *Run) {
 	// (4a) start prefixes: V(), one or two steps that are NOT hoistable filters, then a filter the
 	// index rewrite would hoist if it (wrongly) looked through what stands between.  as/hasKey
 	// commute with the filter; distinct/limit/fields/out do not.
+	// on a graph where the first vertex of the scan shares its `name` (and `x`) with a later one of
+	// another label: distinct() keeps the first, which the filter then drops
+	reset(map[string]interface{}{"vertices": []interface{}{
+		map[string]interface{}{"gid": "v1", "label": "B", "data": map[string]interface{}{"name": "alex", "x": 1.0}},
+		map[string]interface{}{"gid": "v2", "label": "A", "data": map[string]interface{}{"name": "alex", "x": 1.0}},
+		map[string]interface{}{"gid": "v3", "label": "A", "data": map[string]interface{}{"name": "kim", "x": 2.0}},
+		map[string]interface{}{"gid": "v4", "label": "C", "data": map[string]interface{}{"name": "kim"}},
+	}, "edges": []interface{}{
+		map[string]interface{}{"gid": "e1", "label": "k", "from": "v1", "to": "v2", "data": map[string]interface{}{}},
+		map[string]interface{}{"gid": "e2", "label": "k", "from": "v2", "to": "v3", "data": map[string]interface{}{}},
+		map[string]interface{}{"gid": "e3", "label": "k", "from": "v4", "to": "v1", "data": map[string]interface{}{}},
+	}})
 	for _, mid := range [][]c01Stmt{
 		{}, {{"as": "a"}}, {{"hasKey": sl("name")}}, {{"distinct": sl("name")}}, {{"distinct": sl("_label")}}, {{"limit": 2}},
 		{{"fields": sl("name")}}, {{"out": sl()}}, {{"as": "a"}, {"distinct": sl("x")}}, {{"skip": 1}}, {{"both": sl()}, {"distinct": sl()}},
